@@ -537,8 +537,10 @@ func (b *blob) cacheChunkData(chunk region, r io.Reader, fr fetcher, allData map
 	defer cw.Close()
 
 	w := io.Writer(cw)
-	if _, ok := fetched[chunk]; ok {
-		w = io.MultiWriter(w, allData[chunk])
+	if dw, ok := allData[chunk]; ok {
+		// This chunk was requested by the caller. (Other chunks can reach here, too: the server
+		// may send more than requested or even the same part twice. They are only cached.)
+		w = io.MultiWriter(w, dw)
 	}
 
 	if _, err := io.CopyN(w, r, chunk.size()); err != nil {
